@@ -355,6 +355,31 @@ def gen_case(rng, small=False):
                 c0 = max(c0, lo)
                 c1 = max(c1, min(len(cols), c0 + 8))
             skip = None
+            tagged = [t for t in {c[3] for c in cols} if t is not None and any(c[3] == t and c[0] in "ID" for c in cols)]
+            if tagged and lo is None and rng.random() < 0.25:
+                # the own insertion / deletion operation of a carried listed variant is the LAST (or first) operation of
+                # an aligned block: followed (preceded) by the end of the alignment, a clip, or a reference skip
+                tg = rng.choice(tagged)
+                idc = [i for i, c in enumerate(cols) if c[3] == tg and c[0] in "ID"]
+                mode = rng.choice(["end", "end", "skip", "begin"])
+                soft = (rng.choice([0, 0, 2, 7]), rng.choice([0, 0, 3, 9]))
+                hard = (rng.choice([0, 0, 4]), rng.choice([0, 0, 5]))
+                if mode == "end":
+                    c1 = idc[-1] + 1
+                    c0 = max(0, c1 - rng.randint(6, 60))
+                elif mode == "begin":
+                    c0 = idc[0]
+                    c1 = min(len(cols), c0 + rng.randint(6, 60))
+                else:
+                    c0 = max(0, idc[0] - rng.randint(3, 40))
+                    c1 = min(len(cols), idc[-1] + rng.randint(8, 60))
+                    a = cols[idc[-1]][1] + (0 if cols[idc[-1]][0] == "I" else 1)
+                    skip = (a, a + rng.randint(1, 12))
+                al = G.make_alignment(rng, cols, c0, c1, style=style, skip=skip, soft=soft, hard=hard,
+                                      split_prob=split_prob, trim=False)
+                if al is not None:
+                    return al
+                skip = None
             if rng.random() < 0.35 and c1 - c0 > 12:
                 a = cols[rng.randint(c0 + 2, c1 - 6)][1]
                 skip = (a, a + rng.randint(1, 25))
